@@ -12,6 +12,8 @@ import (
 	"gvc/internal/spec"
 )
 
+var _ = spec.Parse
+
 // calleeKey computes the contract key of a statically known callee.
 func calleeKey(f *types.Func) string {
 	sig := f.Type().(*types.Signature)
@@ -93,7 +95,34 @@ func (e *Engine) callMayWriteHeap(call *ast.CallExpr) bool {
 	if con == nil {
 		return false // reported as an error when executed
 	}
-	return len(con.Assigns) > 0
+	for _, a := range con.Assigns {
+		if strings.ContainsAny(a, ".*[") {
+			return true
+		}
+	}
+	return false
+}
+
+// callGhostAssigns: ghost state variables a callee's contract assigns.
+func (e *Engine) callGhostAssigns(call *ast.CallExpr) []string {
+	if tv, ok := e.info().Types[call.Fun]; ok && tv.IsType() {
+		return nil
+	}
+	fn := e.staticCallee(call)
+	if fn == nil {
+		return nil
+	}
+	con := e.Contracts.Funcs[e.methodKeyAt(call, fn)]
+	if con == nil {
+		return nil
+	}
+	var out []string
+	for _, a := range con.Assigns {
+		if !strings.ContainsAny(a, ".*[") {
+			out = append(out, a)
+		}
+	}
+	return out
 }
 
 func (e *Engine) evalCall(st *State, call *ast.CallExpr) ([]Val, error) {
@@ -125,6 +154,11 @@ func (e *Engine) evalCall(st *State, call *ast.CallExpr) ([]Val, error) {
 		return args, nil
 	}
 	fn := e.staticCallee(call)
+	if fn != nil && len(call.Args) == 2 && e.methodKeyAt(call, fn) == "sort.Slice" {
+		if lit, ok := ast.Unparen(call.Args[1]).(*ast.FuncLit); ok {
+			return nil, e.sortSlice(st, call, lit)
+		}
+	}
 	// client hook (Layer O placeholders, helper functions)
 	if e.Hook != nil {
 		name := ""
@@ -160,7 +194,14 @@ func (e *Engine) evalCall(st *State, call *ast.CallExpr) ([]Val, error) {
 func (e *Engine) finishCall(st *State, call *ast.CallExpr, fn *types.Func, args []Val) ([]Val, error) {
 	if fn != nil {
 		key := e.methodKeyAt(call, fn)
+		if err := e.assertAtCall(st, key, call); err != nil {
+			return nil, err
+		}
+
 		con := e.Contracts.Funcs[key]
+		if con == nil {
+			con = e.defaultPure(fn, key)
+		}
 		if con == nil {
 			return nil, e.errf(call.Pos(), "call of %s: no contract (key %s)", fn.FullName(), key)
 		}
@@ -179,6 +220,9 @@ func (e *Engine) finishCall(st *State, call *ast.CallExpr, fn *types.Func, args 
 					}
 				}
 				recv = &r
+				if _, isIface := r.Ty.Underlying().(*types.Interface); isIface {
+					e.oblige(st, "safety", "nil-interface-call("+describe(se, e.Fset)+")", call.Pos(), smt.Neq(r.T, NilV))
+				}
 			}
 		}
 		sig := fn.Type().(*types.Signature)
@@ -203,7 +247,43 @@ func (e *Engine) finishCall(st *State, call *ast.CallExpr, fn *types.Func, args 
 		for i := 0; i < sig.Results().Len(); i++ {
 			resTypes = append(resTypes, sig.Results().At(i).Type())
 		}
-		return e.ApplyContract(st, con, recv, args, resTypes, call.Pos())
+		// arguments the callee mutates in place (slices sorted or filled by the
+		// callee): attribute "mutates-arg: <param>"; final(<param>) in the
+		// callee's ensures denotes the argument's value after the call
+		finals := map[string]Val{}
+		var finalTargets []struct {
+			x ast.Expr
+			v Val
+		}
+		for _, mp := range con.Attrs["mutates-arg"] {
+			mp = strings.TrimSpace(mp)
+			for i, pn := range con.Params {
+				if pn != mp || i >= len(call.Args) {
+					continue
+				}
+				nv := Val{e.Fresh("final!"+mp, args[i].T.Sort), args[i].Ty}
+				finals[mp] = nv
+				finalTargets = append(finalTargets, struct {
+					x ast.Expr
+					v Val
+				}{call.Args[i], nv})
+			}
+		}
+		e.finals = finals
+		outs, err := e.ApplyContract(st, con, recv, args, resTypes, call.Pos())
+		e.finals = nil
+		if err != nil {
+			return nil, err
+		}
+		for _, ft := range finalTargets {
+			if err := e.assign(st, ft.x, ft.v); err != nil {
+				return nil, e.errf(call.Pos(), "mutates-arg: argument is not assignable: %v", err)
+			}
+		}
+		if err := e.assertAfterCall(st, key, call, outs); err != nil {
+			return nil, err
+		}
+		return outs, nil
 	}
 	// dynamic call of a function value: uninterpreted, deterministic, traced
 	fv, err := e.eval(st, call.Fun)
@@ -445,6 +525,9 @@ func (e *Engine) ApplyContract(st *State, con *contract.Func, recv *Val, args []
 			bound[k] = v
 		}
 	}
+	for k, v := range e.finals {
+		bound["final!"+k] = v
+	}
 	pre := st.Clone()
 	for i, r := range con.Requires {
 		env := &SpecEnv{E: e, St: st, Old: pre, Bound: bound, Callee: true, Pkg: keyPkg(con.Key)}
@@ -561,7 +644,16 @@ func (e *Engine) havocAssigns(st, pre *State, con *contract.Func, bound map[stri
 		targets = append(targets, t)
 		return t
 	}
+	var anyFids []int
 	for _, a := range con.Assigns {
+		if strings.HasPrefix(a, "any ") {
+			fid, err := e.anyFieldID(strings.TrimSpace(a[4:]))
+			if err != nil {
+				return fmt.Errorf("assigns %q: %v", a, err)
+			}
+			anyFids = append(anyFids, fid)
+			continue
+		}
 		x, err := spec.Parse(a)
 		if err != nil {
 			return fmt.Errorf("assigns %q: %v", a, err)
@@ -592,6 +684,7 @@ func (e *Engine) havocAssigns(st, pre *State, con *contract.Func, bound map[stri
 			if !ok {
 				return fmt.Errorf("assigns %q: no such field", a)
 			}
+			idx = e.FID(pt.Elem(), idx)
 			t := find(base.T)
 			if t.fields != nil {
 				t.fields[idx] = true
@@ -609,7 +702,7 @@ func (e *Engine) havocAssigns(st, pre *State, con *contract.Func, bound map[stri
 			return fmt.Errorf("assigns %q: unsupported target", a)
 		}
 	}
-	if len(targets) == 0 {
+	if len(targets) == 0 && len(anyFids) == 0 {
 		return nil
 	}
 	h0 := st.heap
@@ -619,9 +712,24 @@ func (e *Engine) havocAssigns(st, pre *State, con *contract.Func, bound map[stri
 	for _, t := range targets {
 		notTarget = append(notTarget, smt.Neq(p, t.obj))
 	}
-	st.Assume(smt.Forall([]smt.Bound{{Name: "p", Sort: smt.V}},
-		smt.Implies(smt.And(notTarget...), smt.Eq(smt.App(smt.V, "select", h1, p), smt.App(smt.V, "select", h0, p))),
-		smt.App(smt.V, "select", h1, p)))
+	if len(anyFids) > 0 {
+		// type-level field assigns: any object's field with one of these
+		// identifiers may change; every other field of every object that is not a
+		// named target keeps its value
+		jj := smt.T{S: "j", Sort: smt.Int}
+		var ne []smt.T
+		for _, f := range anyFids {
+			ne = append(ne, smt.Neq(jj, smt.IntLit(f)))
+		}
+		o1 := smt.App(smt.V, "f_get", smt.App(smt.V, "select", h1, p), jj)
+		o0 := smt.App(smt.V, "f_get", smt.App(smt.V, "select", h0, p), jj)
+		st.Assume(smt.Forall([]smt.Bound{{Name: "p", Sort: smt.V}, {Name: "j", Sort: smt.Int}},
+			smt.Implies(smt.And(append(notTarget, ne...)...), smt.Eq(o1, o0)), o1))
+	} else {
+		st.Assume(smt.Forall([]smt.Bound{{Name: "p", Sort: smt.V}},
+			smt.Implies(smt.And(notTarget...), smt.Eq(smt.App(smt.V, "select", h1, p), smt.App(smt.V, "select", h0, p))),
+			smt.App(smt.V, "select", h1, p)))
+	}
 	for _, t := range targets {
 		if t.fields == nil {
 			continue
@@ -731,4 +839,288 @@ func (e *Engine) applyTerm(fv Val, args []Val, sig *types.Signature, i int) Val 
 	name += "!" + string(SortOf(rt)[0])
 	e.Decls.Fun(name, sorts, SortOf(rt))
 	return Val{smt.App(SortOf(rt), name, terms...), rt}
+}
+
+// assertAtCall: "assert-at-call <callee key>: P" clauses of the contract under
+// verification are proof obligations at every call of that callee, evaluated
+// in the caller's state and scope.
+func (e *Engine) assertAtCall(st *State, key string, call *ast.CallExpr) error {
+	if e.curCon == nil {
+		return nil
+	}
+	for i, a := range e.curCon.Attrs["assert-at-call"] {
+		j := strings.Index(a, ":")
+		if j < 0 || strings.TrimSpace(a[:j]) != key {
+			continue
+		}
+		x, err := spec.Parse(strings.TrimSpace(a[j+1:]))
+		if err != nil {
+			return fmt.Errorf("%s: assert-at-call of %s: %v", e.curCon.File, e.curCon.Key, err)
+		}
+		env := e.newEnv(st, call.Pos())
+		v, err := e.evalSpec(env, x)
+		if err != nil {
+			return fmt.Errorf("%s: assert-at-call of %s: %v", e.curCon.File, e.curCon.Key, err)
+		}
+		e.oblige(st, "assert", fmt.Sprintf("at-call(%s)#%d", key, i+1), call.Pos(), v.T)
+	}
+	return nil
+}
+
+// sortSlice models sort.Slice(x, func(i, j int) bool { return E }) where E
+// reads x only through x[i] and x[j]: E defines a relation less(s, i, j); the
+// obligations are that it is a strict weak order on every slice content, and
+// afterwards x is a permutation of its old content with no inversion.
+func (e *Engine) sortSlice(st *State, call *ast.CallExpr, lit *ast.FuncLit) error {
+	id, ok := ast.Unparen(call.Args[0]).(*ast.Ident)
+	if !ok {
+		return e.errf(call.Pos(), "sort.Slice on a non-variable")
+	}
+	xv, ok := e.info().ObjectOf(id).(*types.Var)
+	if !ok {
+		return e.errf(call.Pos(), "sort.Slice on a non-variable")
+	}
+	sig := e.info().TypeOf(lit).(*types.Signature)
+	if sig.Params().Len() != 2 {
+		return e.errf(call.Pos(), "sort.Slice: less function outside the subset")
+	}
+	old := st.vars[xv]
+	n := smt.App(smt.Int, "s_len", old)
+	// less as a term over a generic content S and indices I, J
+	S := e.Fresh("sortS", smt.V)
+	I := e.Fresh("sortI", smt.Int)
+	J := e.Fresh("sortJ", smt.Int)
+	sub := st.Clone()
+	sub.vars[xv] = S
+	sub.vars[sig.Params().At(0)] = I
+	sub.vars[sig.Params().At(1)] = J
+	sub.Assume(smt.Eq(smt.App(smt.Int, "s_len", S), n))
+	sub.Assume(smt.And(smt.Le(smt.IntLit(0), I), smt.Lt(I, n), smt.Le(smt.IntLit(0), J), smt.Lt(J, n)))
+	{
+		// the content less is applied to is a rearrangement of the input
+		kq := smt.T{S: "k?g", Sort: smt.Int}
+		lq := smt.T{S: "l?g", Sort: smt.Int}
+		sub.Assume(smt.Forall([]smt.Bound{{Name: kq.S, Sort: smt.Int}}, smt.Implies(smt.And(smt.Le(smt.IntLit(0), kq), smt.Lt(kq, n)),
+			smt.Exists([]smt.Bound{{Name: lq.S, Sort: smt.Int}}, smt.And(smt.Le(smt.IntLit(0), lq), smt.Lt(lq, n), smt.Eq(smt.App(smt.V, "s_at", S, kq), smt.App(smt.V, "s_at", old, lq)))))))
+	}
+	base := len(sub.pc)
+	saved := e.litSig
+	e.litSig = sig
+	outs, err := e.execBlock(sub.Clone(), lit.Body.List)
+	e.litSig = saved
+	if err != nil {
+		return err
+	}
+	var disj []smt.T
+	for _, o := range outs {
+		if o.kind != oReturn {
+			continue
+		}
+		v, ok := o.st.named["$res0"]
+		if !ok {
+			return e.errf(call.Pos(), "sort.Slice: less function without result")
+		}
+		disj = append(disj, smt.And(append(append([]smt.T(nil), o.st.pc[base:]...), v.T)...))
+	}
+	lessV := Val{smt.Or(disj...), types.Typ[types.Bool]}
+	var extra []smt.T
+	inst := func(s, i, j smt.T) smt.T {
+		r := strings.NewReplacer(S.S, s.S, I.S, i.S, J.S, j.S)
+		return smt.T{S: r.Replace(lessV.T.S), Sort: smt.Bool}
+	}
+	instFacts := func(s, i, j smt.T) smt.T {
+		r := strings.NewReplacer(S.S, s.S, I.S, i.S, J.S, j.S)
+		var fs []smt.T
+		for _, f := range extra {
+			fs = append(fs, smt.T{S: r.Replace(f.S), Sort: smt.Bool})
+		}
+		return smt.And(fs...)
+	}
+	// strict weak order: irreflexive, transitive, incomparability transitive
+	K := e.Fresh("sortK", smt.Int)
+	chk := sub.Clone()
+	chk.Assume(smt.And(smt.Le(smt.IntLit(0), K), smt.Lt(K, n)))
+	chk.Assume(instFacts(S, I, I))
+	chk.Assume(instFacts(S, J, I))
+	chk.Assume(instFacts(S, J, K))
+	chk.Assume(instFacts(S, I, K))
+	chk.Assume(instFacts(S, K, J))
+	chk.Assume(instFacts(S, K, I))
+	e.oblige(chk, "pre", "sort.Slice:less-irreflexive", call.Pos(), smt.Not(inst(S, I, I)))
+	e.oblige(chk, "pre", "sort.Slice:less-transitive", call.Pos(), smt.Implies(smt.And(inst(S, I, J), inst(S, J, K)), inst(S, I, K)))
+	e.oblige(chk, "pre", "sort.Slice:incomparability-transitive", call.Pos(),
+		smt.Implies(smt.And(smt.Not(inst(S, I, J)), smt.Not(inst(S, J, I)), smt.Not(inst(S, J, K)), smt.Not(inst(S, K, J))), smt.And(smt.Not(inst(S, I, K)), smt.Not(inst(S, K, I)))))
+	// effect
+	nw := e.Fresh("sorted", smt.V)
+	st.vars[xv] = nw
+	st.Assume(smt.Eq(smt.App(smt.Int, "s_len", nw), n))
+	st.Assume(smt.Eq(smt.Eq(nw, NilV), smt.Eq(old, NilV)))
+	e.Decls.Fun("perm", []smt.Sort{smt.V, smt.V}, smt.Bool)
+	st.Assume(smt.App(smt.Bool, "perm", nw, old))
+	a, b := smt.T{S: "a?s", Sort: smt.Int}, smt.T{S: "b?s", Sort: smt.Int}
+	st.Assume(smt.Forall([]smt.Bound{{Name: a.S, Sort: smt.Int}, {Name: b.S, Sort: smt.Int}},
+		smt.Implies(smt.And(smt.Le(smt.IntLit(0), a), smt.Lt(a, b), smt.Lt(b, n)), smt.And(instFacts(nw, b, a), smt.Not(inst(nw, b, a))))))
+	// every element of the result is an element of the input and vice versa
+	kq := smt.T{S: "k?s", Sort: smt.Int}
+	lq := smt.T{S: "l?s", Sort: smt.Int}
+	st.Assume(smt.Forall([]smt.Bound{{Name: kq.S, Sort: smt.Int}}, smt.Implies(smt.And(smt.Le(smt.IntLit(0), kq), smt.Lt(kq, n)),
+		smt.Exists([]smt.Bound{{Name: lq.S, Sort: smt.Int}}, smt.And(smt.Le(smt.IntLit(0), lq), smt.Lt(lq, n), smt.Eq(smt.App(smt.V, "s_at", nw, kq), smt.App(smt.V, "s_at", old, lq)))))))
+	st.Assume(smt.Forall([]smt.Bound{{Name: kq.S, Sort: smt.Int}}, smt.Implies(smt.And(smt.Le(smt.IntLit(0), kq), smt.Lt(kq, n)),
+		smt.Exists([]smt.Bound{{Name: lq.S, Sort: smt.Int}}, smt.And(smt.Le(smt.IntLit(0), lq), smt.Lt(lq, n), smt.Eq(smt.App(smt.V, "s_at", old, kq), smt.App(smt.V, "s_at", nw, lq)))))))
+	return nil
+}
+
+// purePkgs: standard-library packages whose functions and methods neither
+// write memory the engine models nor have effects the properties speak about.
+// A call into one of them without an explicit contract is an uninterpreted
+// pure function of its arguments (recorded in UncontractedPure).
+var purePkgs = map[string]bool{"strings": true, "strconv": true, "unicode": true, "path/filepath": true, "path": true, "go/types": true, "math": true, "go/token": true, "unicode/utf8": true}
+
+func (e *Engine) defaultPure(fn *types.Func, key string) *contract.Func {
+	if fn.Pkg() == nil || !purePkgs[fn.Pkg().Path()] {
+		return nil
+	}
+	if c, ok := e.autoPure[key]; ok {
+		return c
+	}
+	sig := fn.Type().(*types.Signature)
+	c := &contract.Func{Key: key, LoopInv: map[int][]contract.Clause{}, Attrs: map[string][]string{"pure": {"true"}, "auto": {"true"}}, Extern: true}
+	if sig.Recv() != nil {
+		c.Recv = "recv"
+	}
+	for i := 0; i < sig.Params().Len(); i++ {
+		c.Params = append(c.Params, fmt.Sprintf("p%d", i))
+	}
+	for i := 0; i < sig.Results().Len(); i++ {
+		c.Results = append(c.Results, fmt.Sprintf("r%d", i))
+	}
+	if e.autoPure == nil {
+		e.autoPure = map[string]*contract.Func{}
+	}
+	e.autoPure[key] = c
+	e.UncontractedPure = append(e.UncontractedPure, key)
+	return c
+}
+
+// noteCallFields records which field indices a callee's assigns clause names.
+func (e *Engine) noteCallFields(call *ast.CallExpr) {
+	fn := e.staticCallee(call)
+	if fn == nil {
+		return
+	}
+	con := e.Contracts.Funcs[e.methodKeyAt(call, fn)]
+	if con == nil {
+		return
+	}
+	sig := fn.Type().(*types.Signature)
+	for _, a := range con.Assigns {
+		if !strings.ContainsAny(a, ".*[") {
+			continue
+		}
+		if strings.HasPrefix(a, "any ") {
+			if fid, err := e.anyFieldID(strings.TrimSpace(a[4:])); err == nil {
+				e.noteFieldWrite(fid, nil)
+			} else {
+				e.fieldWAll = true
+			}
+			continue
+		}
+		i := strings.LastIndex(a, ".")
+		if i < 0 || strings.ContainsAny(a, "*[") {
+			e.fieldWAll = true
+			continue
+		}
+		base, field := a[:i], a[i+1:]
+		var t types.Type
+		if sig.Recv() != nil && base == con.Recv {
+			t = sig.Recv().Type()
+		}
+		for k, pn := range con.Params {
+			if pn == base && k < sig.Params().Len() {
+				t = sig.Params().At(k).Type()
+			}
+		}
+		if t == nil {
+			e.fieldWAll = true
+			continue
+		}
+		if p, ok := t.Underlying().(*types.Pointer); ok {
+			t = p.Elem()
+		}
+		st, ok := t.Underlying().(*types.Struct)
+		if !ok {
+			e.fieldWAll = true
+			continue
+		}
+		idx, _, ok := FieldIndex(st, field)
+		if !ok {
+			e.fieldWAll = true
+			continue
+		}
+		// the object written is the call's receiver / argument
+		var bx ast.Expr
+		if sig.Recv() != nil && base == con.Recv {
+			if se, ok := ast.Unparen(call.Fun).(*ast.SelectorExpr); ok {
+				bx = se.X
+			}
+		}
+		for k, pn := range con.Params {
+			if pn == base && k < len(call.Args) {
+				bx = call.Args[k]
+			}
+		}
+		e.noteFieldWrite(e.FID(t, idx), bx)
+	}
+}
+
+// assertAfterCall: "assert-after-call <callee key>: P" obligations right after a call.
+func (e *Engine) assertAfterCall(st *State, key string, call *ast.CallExpr, outs []Val) error {
+	if e.curCon == nil {
+		return nil
+	}
+	for i, a := range e.curCon.Attrs["assert-after-call"] {
+		j := strings.Index(a, ":")
+		if j < 0 || strings.TrimSpace(a[:j]) != key {
+			continue
+		}
+		x, err := spec.Parse(strings.TrimSpace(a[j+1:]))
+		if err != nil {
+			return fmt.Errorf("%s: assert-after-call of %s: %v", e.curCon.File, e.curCon.Key, err)
+		}
+		env := e.newEnv(st, call.End())
+		for k, o := range outs {
+			env.Bound[fmt.Sprintf("$ret%d", k)] = o
+		}
+		v, err := e.evalSpec(env, x)
+		if err != nil {
+			return fmt.Errorf("%s: assert-after-call of %s: %v", e.curCon.File, e.curCon.Key, err)
+		}
+		e.oblige(st, "assert", fmt.Sprintf("after-call(%s)#%d", key, i+1), call.Pos(), v.T)
+	}
+	return nil
+}
+
+// anyFieldID resolves "pkg.Type.field" (e.g. ast.CallExpr.Fun) to its field identifier.
+func (e *Engine) anyFieldID(s string) (int, error) {
+	i := strings.LastIndex(s, ".")
+	if i < 0 {
+		return 0, fmt.Errorf("need pkg.Type.field")
+	}
+	tn := s[:i]
+	if e.cur != nil && e.cur.Pkg != nil {
+		tn = strings.TrimPrefix(tn, e.cur.Pkg.Name()+".")
+	}
+	t, err := e.ResolveType(tn)
+	if err != nil {
+		return 0, err
+	}
+	st, ok := t.Underlying().(*types.Struct)
+	if !ok {
+		return 0, fmt.Errorf("%s is not a struct type", s[:i])
+	}
+	idx, _, ok := FieldIndex(st, s[i+1:])
+	if !ok {
+		return 0, fmt.Errorf("%s has no field %s", s[:i], s[i+1:])
+	}
+	return e.FID(t, idx), nil
 }
